@@ -34,6 +34,6 @@ echo "$ID [$P] $B0 | $S | $A | $B"
 OUT=$(mktemp -d /tmp/mutout-XXXXXX)
 C=$(VERIF_REPO="$WT" VERIF_OUT_DIR="$OUT" ${VERIF_DIR:-/verif}/bin/simcheck run -property "$P" 2>&1 | grep -E "violation class|^simcheck: C|NONDET|tool error|watchdog" | cut -c1-200)
 echo "$C"
-n=$(echo "$C" | grep -c "violation class")
+n=$(echo "$C" | grep -c "^  violation class")
 echo "{\"id\":\"$ID\",\"property\":\"$P\",\"confirmed\":\"$B0 | $S | $A | $B\",\"quick_check_violation_classes\":$n}" > $D/result.json
 rm -rf "$OUT"; cleanup
